@@ -15,6 +15,7 @@ use cairo_lang_starknet_classes::contract_class::{ContractClass, ContractEntryPo
 use num_bigint::BigInt;
 use serde_json::json;
 
+use crate::pipe::Cfg;
 use crate::core::{CheckDef, Ctx, Tier};
 use crate::sierra::corpus;
 
@@ -181,6 +182,12 @@ fn parse_err_sig(err: &str, text: &str) -> String {
     };
     let at = num("location:").or_else(|| num("token:"));
     let ch = at.and_then(|i| text.get(i..)).and_then(|s| s.chars().next()).map(|c| c.to_string()).unwrap_or_default();
+    // an identifier where punctuation was expected: key by the word in front of it (`Generated core::...`)
+    if ch.chars().all(|c| c.is_alphanumeric() || c == '_') && !ch.is_empty() {
+        let before = at.and_then(|i| text.get(..i)).unwrap_or("").trim_end();
+        let word: String = before.chars().rev().take_while(|c| c.is_alphanumeric() || *c == '_').collect::<String>().chars().rev().collect();
+        return format!("{kind}:word-after:{word}");
+    }
     format!("{kind}:{ch}")
 }
 
@@ -562,6 +569,28 @@ fn run(ctx: &mut Ctx) {
             },
         );
     }
+    // thorough: the Sierra the compiler generates for every corpus snippet under the corner configurations
+    // (inlining / const folding / match lowering change which libfuncs, generic arguments and debug names occur)
+    if tier == Tier::Thorough {
+        let cfgs: Vec<Cfg> = Cfg::corners().into_iter().filter(|c| c.linear).collect();
+        for snip in crate::exec::snippets(tier) {
+            ctx.case(
+                || json!({"space":"compiled-snippets","snippet":snip.name}),
+                |ctx| {
+                    let mut dbs = crate::exec::Dbs::default();
+                    let mut seen = std::collections::BTreeSet::new();
+                    for cfg in &cfgs {
+                        let Ok(Ok(p)) = crate::core::guarded(|| dbs.compile_snip(cfg, &snip)) else { continue };
+                        if !seen.insert(crate::core::hash_of(&p.to_string())) {
+                            continue;
+                        }
+                        ctx.count("compiled_snippet_programs", 1);
+                        check_program(ctx, &format!("{}@{}", snip.name, cfg.name()), &p, true);
+                    }
+                },
+            );
+        }
+    }
     // Sierra generated by the compiler from the examples (every generic-arg kind the generator emits)
     if tier == Tier::Thorough || true {
         ctx.case(
@@ -578,7 +607,7 @@ fn run(ctx: &mut Ctx) {
 pub static C18: CheckDef = CheckDef {
     id: "C18",
     level: "exploration",
-    rule: "[also over every compiling wrapper program of the C14 instantiation lattice (~960 quick), none of which the compiler produces] Complete pass over (a) every parseable corpus Sierra program (e2e sierra_code sections + *.sierra files; quick: <=400 statements) and the Sierra the compiler generates for examples/ (debug-name ids), and (b) a programmatically built format lattice: every GenericArg kind x 10 boundary values / 24 id spellings (numeric, 1..70 chars, containing :: <> [] @ , digits) in a type and a libfunc declaration x declared-type-info combinations; every id style x statement shape (0/1/3 branches, fallthrough/explicit, 0..3 args/results, empty return, function without params). Oracles: parse(display(s)) succeeds, display is a fixpoint, parsed program isomorphic (equal canonical shape; equal ids on the lattice); serde_json VersionedProgram round trip equal; extract_sierra_program(ContractClass::new(canon(s))) == canon(s) minus debug names; CASM text of s, canon(s), name-stripped s, text- and felt-round-tripped s byte-identical (or all rejected). distinct_nontrivial = distinct program texts.",
+    rule: "[thorough also: the Sierra generated for every corpus snippet (e2e + wrappers + hand-written + divergence family + examples/bug_samples files) under the 5 corner front-end configurations, deduplicated] [also over every compiling wrapper program of the C14 instantiation lattice (~960 quick), none of which the compiler produces] Complete pass over (a) every parseable corpus Sierra program (e2e sierra_code sections + *.sierra files; quick: <=400 statements) and the Sierra the compiler generates for examples/ (debug-name ids), and (b) a programmatically built format lattice: every GenericArg kind x 10 boundary values / 24 id spellings (numeric, 1..70 chars, containing :: <> [] @ , digits) in a type and a libfunc declaration x declared-type-info combinations; every id style x statement shape (0/1/3 branches, fallthrough/explicit, 0..3 args/results, empty return, function without params). Oracles: parse(display(s)) succeeds, display is a fixpoint, parsed program isomorphic (equal canonical shape; equal ids on the lattice); serde_json VersionedProgram round trip equal; extract_sierra_program(ContractClass::new(canon(s))) == canon(s) minus debug names; CASM text of s, canon(s), name-stripped s, text- and felt-round-tripped s byte-identical (or all rejected). distinct_nontrivial = distinct program texts.",
     assumptions: &["Program equality is id-based (debug names ignored), as defined by the crate", "lattice programs need not be valid Sierra: only serialization is exercised on them"],
     run,
     stack_mb: 16,
